@@ -653,6 +653,9 @@ object_t *clone_object (const char *str1, int num_arg) {
     }
   num_objects_this_thread = 0;
   ob = find_or_load_object (str1);
+  /* loading the blueprint ran its create(): the caller may have given up its euid meanwhile */
+  if (current_object && current_object->euid == 0 && current_object != master_ob)
+    error ("*Attempt to create object without effective UID.");
   if (ob && !object_visible (ob))
     ob = 0;
   /*
